@@ -88,7 +88,8 @@ SecTypes(pr) ==
     [] pr \in {"date.small", "date.edge"} -> {"i32", "i64", "str"}
     [] OTHER -> {}
 LitToks(pr, lt) ==
-  CASE IsF(pr) /\ lt \in {"f64", "f32"} -> Toks \cup {NaN}
+  CASE IsF(pr) /\ lt = "f64" -> Toks \cup {NaN}
+    [] IsF(pr) /\ lt = "f32" -> (IF pr = "f64.plain" THEN Toks \ {5} ELSE Toks) \cup {NaN}      \* 1e300 is not an f32
     [] IsF(pr) /\ lt \in {"i64", "i32"} -> (IF pr = "f64.zeros" THEN {2, 4} ELSE {1, 3})
     [] pr = "i64.wrap32" /\ lt \in {"i32", "date"} -> {1, 2, 3, 4}
     [] OTHER -> Toks
